@@ -13,7 +13,7 @@ RULE = ('fault enumeration: (exception class x phase x position x options). '
         '--buffer on/off x -v0..3 x in-process/child (layers behind a '
         'NotImplementedError tear-down, -j2). Oracle: run returns, every '
         'other runnable test has run, layer machine ends empty, one summary '
-        'line per layer iteration, totals line. Non-trivial = a fault fired '
+        'line per layer iteration, totals line, every faulty test and every layer whose hook raised named in the final lists (-v). Non-trivial = a fault fired '
         'and >=1 test was scheduled after it; distinct by (shape, faults, '
         'options).')
 ASSUMPTIONS = ['unittest itself turns SystemExit in a test into an error',
@@ -21,7 +21,7 @@ ASSUMPTIONS = ['unittest itself turns SystemExit in a test into an error',
 FLOORS = {'faults_fired': 100, 'tests_after_fault': 100, 'multi_event': 10,
           'buffer_cases': 30, 'child_cases': 5, 'cli_cases': 30,
           'color_or_progress': 60, 'names_checked': 150,
-          'class_fixture_events': 40}
+          'class_fixture_events': 40, 'layer_failures_checked': 40}
 BATCH_TIMEOUT = 300
 
 EXCS = ['ValueError', 'KeyError', 'NeedsArgs', 'CustomDerived', 'Chained',
@@ -126,6 +126,15 @@ def make_case(rng, idx, tier):
         ln = rng.choice([ls['name'] for ls in layers])
         hook = rng.choice(['setUp', 'tearDown'])
         plan = {'layers': {ln: {hook: 'raise:' + rng.choice(EXCS)}}}
+    withb0 = [ls for ls in layers if ls.get('bases')]
+    if withb0 and not mi_family and rng.random() < 0.12:
+        # two tear-downs of one pass go wrong in different ways: one raises
+        # an ordinary exception, the other one says it cannot be done
+        ls = rng.choice(withb0)
+        pair = [ls['name'], rng.choice(ls['bases'])]
+        rng.shuffle(pair)
+        plan = {'layers': {pair[0]: {'tearDown': 'raise:' + rng.choice(EXCS)},
+                           pair[1]: {'tearDown': 'nie'}}}
     if rng.random() < 0.25:
         # a layer that cannot be torn down - preferably one with bases, so
         # that something is left to tear down after it
@@ -335,6 +344,33 @@ def run_case(case):
                              'detail': {'test': tid, 'kind': ts['kind'],
                                         'listed': listed[:8], 'opts': opts,
                                         'plan': plan,
+                                        'out': w.out[-600:]}})
+    # 6. "recorded against that layer": every layer hook that raised is
+    # named in the final error list (a setUp failure under the layer whose
+    # hook raised or under a layer that was being set up on top of it)
+    if (opts.get('verbose') or 0) >= 1 and lfired:
+        left = [n for n in (info['errors_list'] or [])
+                if n.startswith('Layer: ')]
+        for e in lfired:
+            hook = 'setUp' if 'setUp' in e['k'] else 'tearDown'
+            cands = ['Layer: %s.%s' % (
+                vworld.full_layer_name(spec, e['layer']), hook)]
+            if hook == 'setUp':
+                cands += ['Layer: %s.setUp' % vworld.full_layer_name(spec, d)
+                          for d in sorted(model.derived(e['layer']))]
+            counters['layer_failures_checked'] = \
+                counters.get('layer_failures_checked', 0) + 1
+            for c in cands:
+                if c in left:
+                    left.remove(c)
+                    break
+            else:
+                viol.append({'rule': 'failure-not-recorded-against-its-layer',
+                             'mech': 'contain-layer-name-missing',
+                             'detail': {'layer': e['layer'], 'hook': hook,
+                                        'exc': e.get('exc'),
+                                        'listed': info['errors_list'],
+                                        'opts': opts, 'plan': plan,
                                         'out': w.out[-600:]}})
     if len(want) > 1 and info['total'] is None:
         viol.append({'rule': 'totals-line-missing',
